@@ -110,6 +110,7 @@ def follow_structured(hist, variant=0):
             cur = Obj(topo, geom, topo.basis('spline', **kwargs), period=[2 * d['n'] if d['per'] else 0], btype='spline', kwargs=kwargs)
             if d['form'] == 'none' and d['k'] == 0:
                 alts.append(('std', lambda topo=topo, p=d['p']: topo.basis('std', degree=p)))
+                alts.append(connected_alt(cur, d['p'], k + variant))
             if d['form'] == 'none' and d['k'] == -1 and d['p'] >= 1:
                 alts.append(('h-spline', lambda topo=topo, p=d['p']: topo.basis('h-spline', degree=p)))
         elif op in ('ravel', 'discont', 'legendre'):
@@ -122,6 +123,8 @@ def follow_structured(hist, variant=0):
                 cur = Obj(topo, geom, topo.basis('spline', **kwargs), period=period, btype='spline', kwargs=kwargs)
                 if len(dims) > 1:
                     alts.append(('product', lambda dims=tuple(dims): product_basis(dims)))
+                    if all(d['form'] == 'none' and d['k'] == 0 and d['p'] == dims[0]['p'] for d in dims):
+                        alts.append(connected_alt(cur, dims[0]['p'], k + variant))
             elif op == 'discont':
                 kwargs = dict(degree=h['a'][0])
                 cur = Obj(topo, geom, topo.basis('discont', **kwargs), period=period, btype='discont', kwargs=kwargs, exact=len(dims) == 1)
@@ -156,6 +159,20 @@ def follow_structured(hist, variant=0):
         else:
             raise ValueError('unknown operation ' + op)
         yield k, cur, alts
+
+
+def connected_alt(cur, p, variant):
+    """the C0 basis of the same grid seen as an unstructured topology (ConnectedTopology: _basis_c0_structured with
+    util.merge_index_map over the connectivity and Reference.get_edge_dofs): the same space, other numbering"""
+    btype = ('lagrange', 'bernstein', 'std')[variant % 3]
+
+    def make():
+        from nutils import topology
+        t = cur.topo
+        ct = topology.ConnectedTopology(t.space, t.references, t.transforms, t.opposites, t.connectivity)
+        # the interfaces are taken from the structured topology (same elements, same transforms)
+        return Obj(ct, cur.geom, ct.basis(btype, degree=p), period=cur.period, exact=False, root=t)
+    return 'connected-' + btype, make
 
 
 def product_basis(dims):
@@ -205,11 +222,11 @@ def check_vector_args(obj, tab):
                 raise Fail('{}:array-arg:raises-{}'.format(name, type(e).__name__), '{}(array({})) raised {!r}'.format(name, arg, e))
             want = sorted(set(itertools.chain.from_iterable(rows[i] for i in arg)))
             if got != want:
-                kind = 'not-unique' if sorted(set(got)) == want else 'wrong'
+                kind = 'not-sorted-unique' if sorted(set(got)) == want else 'wrong'
                 raise Fail('{}:array-arg:{}'.format(name, kind), '{}(array({})) = {}, the union of the single-index results is {}'.format(name, arg, got, want))
 
 
-def compare_tables(pred, tab, exact, fam):
+def compare_tables(pred, tab, exact, fam, as_sets=False):
     if tab['ne'] != pred['ne']:
         raise Fail('{}:nelems'.format(fam), 'topology has {} elements, the model {}'.format(tab['ne'], pred['ne']))
     if tab['nd'] != pred['nd']:
@@ -219,7 +236,7 @@ def compare_tables(pred, tab, exact, fam):
             raise Fail('{}:support-not-sorted-unique'.format(fam), 'get_support({}) = {} is not strictly increasing'.format(d, s))
     if exact:
         for e in range(pred['ne']):
-            if sorted(tab['ed'][e]) != sorted(pred['ed'][e]):
+            if (sorted(set(tab['ed'][e])) != sorted(set(pred['ed'][e]))) if as_sets else (sorted(tab['ed'][e]) != sorted(pred['ed'][e])):
                 raise Fail('{}:dofs'.format(fam), 'get_dofs({}) = {}, the model predicts {}'.format(e, tab['ed'][e], pred['ed'][e]), dict(code=tab, model=_slim(pred)))
         for d in range(pred['nd']):
             if tab['su'][d] != sorted(pred['su'][d]):
@@ -367,7 +384,7 @@ def check_interfaces(pred, obj, fam, pmax, keys=None):
     return n
 
 
-def check_alternative(label, alt, obj, tab, fam, pmax):
+def check_alternative(label, alt, obj, tab, fam, pmax, pred=None):
     """another route to the same basis must give the same tables (if it is a Basis) and the same values"""
     from nutils import function
     try:
@@ -375,6 +392,15 @@ def check_alternative(label, alt, obj, tab, fam, pmax):
     except Exception as e:
         raise Fail('{}:{}:raises-{}'.format(fam, label, type(e).__name__), 'constructing the basis via {} raised {!r}'.format(label, e))
     ogeom = None
+    if isinstance(other, Obj):     # the same space by another construction: decided against the same prediction
+        try:
+            compare(pred, other, [], 'c0-connected', pmax)
+        except Fail as f:
+            if 4 in (other.period or ()):   # a periodic direction with two elements: they are neighbours through both their facets
+                raise Fail('c0-connected:two-elements-share-two-facets', 'C0 basis {} on a ConnectedTopology in which two elements share two facets '
+                           '(periodic direction of 2 elements): {}'.format(label, f.what), f.data)
+            raise
+        return
     if isinstance(other, tuple):   # a basis on another topology covering the same points
         otopo, other, ogeom = other
     else:
@@ -411,7 +437,7 @@ def compare(pred, obj, alts, fam, pmax, exact=None):
     n = check_values(pred, tab, obj, fam, pmax)
     n += check_interfaces(pred, obj, fam, pmax)
     for label, alt in alts:
-        check_alternative(label, alt, obj, tab, fam, pmax)
+        check_alternative(label, alt, obj, tab, fam, pmax, pred)
     return tab, n, soft
 
 
@@ -436,7 +462,7 @@ def run_structured(hist, preds, done, variant=0):
                     raise diagnose(f, op, hist[k - 1], parent)
                 fails += [(f.key, f.what, dict(hist=hist[:k], detail=f.data)) for f in soft]
                 done.add(key)
-                tables.append(dict(tab, key=key))
+                tables.append(dict(kind='table', t=tab, key=fam))
                 ok += 1
             parent = obj
     except Fail as f:
@@ -472,3 +498,267 @@ def guarded(gen, hist):
             raise Fail('{}:raises-{}'.format(op, type(e).__name__), 'constructing the basis for step {} ({}) raised {!r}'.format(k + 1, op, e))
         k = item[0]
         yield item
+
+
+# ----------------------------------------------------------------------------------------------------------
+# nodal bases on simplex meshes (spec/BasisNodal.tla)
+
+def simplex_topology(D, simp):
+    from nutils import topology, transformseq
+    simplices = numpy.array(simp, dtype=int)
+    transforms = transformseq.IndexTransforms(D, len(simplices))
+    return topology.SimplexTopology('X', simplices, transforms, transforms)
+
+
+def simplex_interfaces(topo, simp):
+    """(interface topology, [(key, a, b)]): key = the common vertices of the two simplices"""
+    from nutils import function
+    ifc = topo.interfaces
+    if len(ifc) == 0:
+        return None, []
+    smp = ifc.sample('gauss', 1)
+    a, b = smp.eval([topo.f_index, function.opposite(topo.f_index)])
+    out = []
+    for i in range(len(ifc)):
+        sel = smp.getindex(i)
+        ea, eb = int(numpy.asarray(a)[sel][0]), int(numpy.asarray(b)[sel][0])
+        out.append((tuple(sorted(set(simp[ea]) & set(simp[eb]))), ea, eb))
+    return ifc, out
+
+
+def run_nodal(h, pred, derive=None):
+    """replay one state of BasisNodal: h = dict(op, p, D, simp); derive: random.Random for the table cases"""
+    from nutils import function
+    op, p, D, simp = h['op'], h['p'], h['D'], [list(s) for s in h['simp']]
+    fam = 'nodal:' + op
+    fails = []
+    tables = []
+    try:
+        try:
+            topo = simplex_topology(D, simp)
+            basis = topo.basis('bubble') if op == 'bubble' else topo.basis(op, degree=p)
+        except Exception as e:
+            raise Fail('{}:raises-{}'.format(fam, type(e).__name__), 'constructing basis {} of degree {} on the simplices {} raised {!r}'.format(op, p, simp, e))
+        obj = Obj(topo, None, basis, exact=False)
+        pmax = max(p, D + 1 if op == 'bubble' else 1)
+        tab = code_tables(obj, fam)
+        try:
+            check_vector_args(obj, tab)
+        except Fail as f:
+            fails.append((f.key, f.what, dict(hist=h)))
+        compare_tables(pred, tab, False, fam)
+        check_values(pred, tab, obj, fam, pmax)
+        check_interfaces(pred, obj, fam, pmax, keys=simplex_interfaces(topo, simp))
+        tables.append(dict(kind='table', t=tab, key=fam))
+        if derive is not None:
+            recs, f2 = derived_records(obj, tab, derive, fam, pmax)
+            tables += recs
+            fails += f2
+    except Fail as f:
+        fails.append((f.key, f.what, dict(hist=h, detail=f.data)))
+    return fails, 1 if tables else 0, tables
+
+
+# ----------------------------------------------------------------------------------------------------------
+# hierarchical bases (spec/BasisHier.tla)
+
+def hier_topology(n, per, cells):
+    """the hierarchical topology with the given active cells [(level, ravelled index)], built level by level with refined_by"""
+    topo, geom = grid(list(n), [d for d, p in enumerate(per) if p])
+    want = {tuple(c) for c in cells}
+    cur = sorted((0, e) for e in range(len(topo)))
+    nd = len(n)
+
+    def children(l, e):
+        shape = [k * 2 ** l for k in n]
+        c = [e] if nd == 1 else [e // shape[1], e % shape[1]]
+        out = []
+        for o in itertools.product((0, 1), repeat=nd):
+            cc = [2 * ci + oi for ci, oi in zip(c, o)]
+            out.append((l + 1, cc[0] if nd == 1 else cc[0] * shape[1] * 2 + cc[1]))
+        return out
+
+    level = 0
+    while set(cur) != want:
+        ref = [i for i, c in enumerate(cur) if c[0] == level and c not in want]
+        if not ref and level > max(l for l, e in want):
+            raise RuntimeError('cannot reach the cells {}'.format(sorted(want)))
+        if ref:
+            topo = topo.refined_by(ref)
+            cur = sorted([c for i, c in enumerate(cur) if i not in set(ref)] + [k for i in ref for k in children(*cur[i])])
+        level += 1
+    return topo, geom, cur
+
+
+def run_hier(h, pred, derive=None):
+    op, p, n, per, L, cells = h['op'], h['p'], h['n'], h['per'], h['L'], [tuple(c) for c in h['cells']]
+    fam = 'hier:' + op
+    fails = []
+    tables = []
+    try:
+        topo, geom, cur = hier_topology(n, per, cells)
+        if cur != cells:
+            raise RuntimeError('element order {} differs from the model {}'.format(cur, cells))
+        scale = 2 ** L
+        period = [2 * scale * k if pp else 0 for k, pp in zip(n, per)]
+        try:
+            basis = topo.basis(op, degree=p)
+        except Exception as e:
+            raise Fail('{}:raises-{}'.format(fam, type(e).__name__), 'basis {} of degree {} on cells {} raised {!r}'.format(op, p, cells, e))
+        obj = Obj(topo, geom, basis, period=period, scale=scale)
+        # the elements of the real topology are where the model says they are
+        mids = numpy.asarray(topo.sample('gauss', 1).eval(geom)) * 2 * scale
+        if len(mids) != len(cells) or abs(mids - numpy.array(pred['mid'], dtype=float)).max() > 1e-6:
+            raise RuntimeError('hier: the elements of the topology are not the cells of the model')
+        tab = code_tables(obj, fam)
+        try:
+            check_vector_args(obj, tab)
+        except Fail as f:
+            fails.append((f.key, f.what, dict(hist=h)))
+        if op.startswith('th-'):
+            if tab['nd'] != pred['nd']:
+                raise Fail('{}:ndofs'.format(fam), 'basis has {} functions, the model predicts {}'.format(tab['nd'], pred['nd']), dict(code=tab, model=_slim(pred)))
+            for e in range(pred['ne']):
+                got = set(tab['ed'][e])
+                if not set(pred['edmin'][e]) <= got <= set(pred['ed'][e]):
+                    raise Fail('{}:dofs'.format(fam), 'get_dofs({}) = {}; the model demands at least {} and at most {}'.format(e, tab['ed'][e], pred['edmin'][e], pred['ed'][e]),
+                               dict(code=tab, model=_slim(pred)))
+        else:
+            compare_tables(pred, tab, True, fam, as_sets=True)   # a periodic element may list a function once per image
+        check_values(pred, tab, obj, fam, p)
+        check_interfaces(pred, obj, fam, p)
+        tables.append(dict(kind='table', t=tab, key=fam))
+        if derive is not None:
+            recs, f2 = derived_records(obj, tab, derive, fam, p)
+            tables += recs
+            fails += f2
+    except Fail as f:
+        f = diagnose_hier(f, h)
+        fails.append((f.key, f.what, dict(hist=h, detail=f.data)))
+    return fails, 1 if tables else 0, tables
+
+
+def diagnose_hier(f, h):
+    """a wrong number of functions when a level keeps exactly one element whose level basis lists a function twice
+    (periodic wrap) is the get_dofs(array([e])) defect: give it its root cause key"""
+    if not (f.key.endswith(':ndofs') or f.key.endswith(':dofs')):
+        return f
+    try:
+        topo, geom = grid(list(h['n']), [d for d, p in enumerate(h['per']) if p])
+        for l in range(h['L'] + 1):
+            mine = [e for ll, e in h['cells'] if ll == l]
+            if len(mine) == 1:
+                raw = [int(d) for d in topo.basis(h['op'].split('-', 1)[1], degree=h['p']).get_dofs(mine[0])]
+                if len(raw) != len(set(raw)):
+                    return Fail('hier:one-element-level:parent-dofs-repeat', 'level {} keeps the single element {} whose dof list {} repeats a dof '
+                                '(get_dofs(array) is not unique there): {}'.format(l, mine[0], raw, f.what), f.data)
+            topo = topo.refined
+    except Exception:
+        pass
+    return f
+
+
+# ----------------------------------------------------------------------------------------------------------
+# multipatch bases (spec/BasisMulti.tla)
+
+def multipatch_topology(cells, n):
+    from nutils import mesh
+    nd = len(cells[0])
+    pts = sorted({tuple(c + o for c, o in zip(cell, off)) for cell in cells for off in itertools.product((0, 1), repeat=nd)})
+    ids = {pt: i for i, pt in enumerate(pts)}
+    patches = [[ids[tuple(c + o for c, o in zip(cell, off))] for off in itertools.product((0, 1), repeat=nd)] for cell in cells]
+    return mesh.multipatch(patches=patches, patchverts=[[float(x) for x in pt] for pt in pts], nelems=n)
+
+
+def run_multi(h, pred, derive=None):
+    p, k, pc, n, cells = h['p'], h['k'], h['pc'], h['n'], [tuple(c) for c in h['patches']]
+    fam = 'multipatch'
+    fails = []
+    tables = []
+    try:
+        topo, geom = multipatch_topology(cells, n)
+        kwargs = dict(degree=p, patchcontinuous=bool(pc))
+        if k != -1:
+            kwargs['continuity'] = k
+        try:
+            basis = topo.basis('spline', **kwargs)
+        except Exception as e:
+            raise Fail('{}:raises-{}'.format(fam, type(e).__name__), 'basis spline {} on patches {} raised {!r}'.format(kwargs, cells, e))
+        obj = Obj(topo, geom, basis, period=[0] * len(cells[0]), scale=n)
+        mids = numpy.asarray(topo.sample('gauss', 1).eval(geom)) * 2 * n
+        if len(mids) != pred['ne'] or abs(mids - numpy.array(pred['mid'], dtype=float)).max() > 1e-6:
+            raise RuntimeError('multipatch: the elements of the topology are not where the model puts them')
+        alts = []
+        if k == 0:
+            alts.append(('std', lambda: topo.basis('std', degree=p, patchcontinuous=bool(pc))))
+        tab, npts, soft = compare(pred, obj, alts, fam, p, exact=True)
+        fails += [(f.key, f.what, dict(hist=h)) for f in soft]
+        tables.append(dict(kind='table', t=tab, key=fam))
+        if derive is not None:
+            recs, f2 = derived_records(obj, tab, derive, fam, p)
+            tables += recs
+            fails += f2
+    except Fail as f:
+        fails.append((f.key, f.what, dict(hist=h, detail=f.data)))
+    return fails, 1 if tables else 0, tables
+
+
+# ----------------------------------------------------------------------------------------------------------
+# binding T: MaskedBasis / PrunedBasis / partition basis of a real basis, exported as tables for spec/BasisTables.tla
+
+def derived_records(obj, tab, rng, fam, pmax):
+    """-> (records for BasisTables, failures): one Mask, one Prune and one Part of the real basis obj"""
+    from nutils import function
+    recs = []
+    fails = []
+    parent = dict(ne=tab['ne'], nd=tab['nd'], ed=tab['ed'], su=tab['su'])
+    nd, ne = tab['nd'], tab['ne']
+    todo = []
+    if nd >= 2:
+        K = sorted(rng.sample(range(nd), rng.randint(1, nd - 1)))
+        todo.append(('mask', K, lambda: (obj.topo, obj.basis[numpy.array(K, dtype=int)])))
+    if ne >= 2:
+        E = sorted(rng.sample(range(ne), rng.randint(1, ne - 1)))
+
+        def pruned():
+            sub = subset(obj.topo, E)
+            return sub, function.PrunedBasis(obj.basis, numpy.array(E, dtype=int), sub.f_index, sub.f_coords)
+        # the child of a single element is numbered in the order of the parent's dof list (get_dofs(array([e])) is that
+        # list as it is, reported as get_dofs:array-arg): only an increasing list gives the order preserving numbering
+        if len(E) > 1 or tab['ed'][E[0]] == sorted(set(tab['ed'][E[0]])) or len(set(tab['ed'][E[0]])) != len(tab['ed'][E[0]]):
+            todo.append(('prune', E, pruned))
+        P = [0] + [rng.randint(0, 2) for e in range(ne - 1)]
+        todo.append(('part', P, lambda: (obj.topo, obj.basis.discontinuous_at_partition_interfaces(P))))
+    for kind, arg, make in todo:
+        try:
+            try:
+                topo, child = make()
+            except Exception as e:
+                raise Fail('{}:{}:raises-{}'.format(fam, kind, type(e).__name__), '{} {} of a {} basis raised {!r}'.format(kind, arg, fam, e))
+            cobj = Obj(topo, obj.geom, child)
+            ctab = code_tables(cobj, fam + ':' + kind)
+            if kind == 'prune' and len(arg) == 1 and len(set(tab['ed'][arg[0]])) != len(tab['ed'][arg[0]]) and ctab['nd'] != len(set(tab['ed'][arg[0]])):
+                raise Fail('prune:one-element:parent-dofs-repeat', 'PrunedBasis of the single element {} whose parent dof list {} repeats a dof has {} functions'.format(
+                    arg[0], tab['ed'][arg[0]], ctab['nd']))
+            check_values(dict(un=[]), ctab, cobj, fam + ':' + kind, pmax)
+            recs.append(dict(kind=kind, t=parent, arg=arg, c=ctab, key='{}:{}'.format(fam, kind)))
+        except Fail as f:
+            fails.append((f.key, f.what, dict(parent=parent, op=kind, arg=arg)))
+    return recs, fails
+
+
+# ----------------------------------------------------------------------------------------------------------
+# util.merge_index_map against the MergeIndex machine
+
+def run_merge(e):
+    from nutils import _util as util
+    sets = [list(s) for s in e['sets']]
+    try:
+        got, count = util.merge_index_map(e['nin'], iter(sets), condense=bool(e['condense']))
+        got = [int(x) for x in got]
+    except Exception as ex:
+        return [('merge_index_map:raises-{}'.format(type(ex).__name__), 'merge_index_map({}, {}, condense={}) raised {!r}'.format(e['nin'], sets, e['condense'], ex), dict(case=e))]
+    if got != list(e['map']) or int(count) != e['count']:
+        return [('merge_index_map:result', 'merge_index_map({}, {}, condense={}) = ({}, {}), the machine ends in ({}, {})'.format(
+            e['nin'], sets, e['condense'], got, int(count), list(e['map']), e['count']), dict(case=e))]
+    return []
